@@ -29,7 +29,8 @@ contract(B + "Validator.error_message", inst="UniqueItems", requires=params_req(
          result_kind="str", props=["C10"])
 
 contract("statham.schema.helpers:remove_duplicates", requires="is_list(seq)",
-         returns="is_list(result) and len(result) <= len(seq) and (len(result) == len(seq)) == (not has_dup_py(seq))",
+         returns="is_list(result) and len(result) <= len(seq) and (len(result) == len(seq)) == (not has_dup_py(seq)) and "
+                 "implies(len(seq) >= 1, len(result) >= 1 and result[0] is seq[0])",
          result_kind="list", trusted=True, props=["C01"],
          note="uses a bound-method alias of a local list (seen_add = seen.append): outside the executor's subset; bounded-checked")
 
